@@ -209,6 +209,14 @@ def kernels(draw, max_side=5, kinds=("nonneg", "signed", "sparse", "normalised")
     kw = draw(st.sampled_from([k for k in (1, 3, 5, 7) if min_side <= k <= max_side]))
     kind = draw(st.sampled_from(list(kinds)))
     n = kh * kw
+    if kind == "integer":
+        # small whole numbers incl. exact -1.0, 0.0 and repeated values (Laplacian / sharpening style kernels):
+        # sentinel values and exact cancellations only show up with such entries
+        vals = [float(v) for v in draw(st.lists(st.integers(-2, 3), min_size=n, max_size=n))]
+        if not any(vals):
+            vals[n // 2] = 1.0
+        k = [vals[i * kw:(i + 1) * kw] for i in range(kh)]
+        return {"kind": kind, "values": k}
     if kind == "signed":
         vals = draw(st.lists(reals(-2, 2), min_size=n, max_size=n))
     else:
